@@ -562,6 +562,36 @@ def subprocess_samples(col, rng, tmpdir):
         if p.returncode != 0 or p.stdout != want:
             col.violation('C19/subprocess-output-differs:' + name, 'python -m glom %s: status %d stdout %r stderr %r ; expected %r'
                           % (argv, p.returncode, p.stdout, p.stderr[-300:], want), None)
+    # a producer that starts writing LATE (the command is up and waiting before the first byte arrives) and writes in pieces:
+    # standard input is read to its end, whenever the data comes
+    import time
+    for name, argv in (('stdin-implicit-slow-producer', [st]), ('stdin-dash-slow-producer', [st, '-'])):
+        for delay in (0.6, 1.5):
+            try:
+                p = subprocess.Popen([sys.executable, '-m', 'glom'] + argv, env=e, cwd=tmpdir, stdin=subprocess.PIPE, stdout=subprocess.PIPE,
+                                     stderr=subprocess.PIPE, text=True, encoding='utf-8')
+                time.sleep(delay)
+                half = len(tt) // 2
+                p.stdin.write(tt[:half])
+                p.stdin.flush()
+                time.sleep(0.3)
+                p.stdin.write(tt[half:])
+                out, err = p.communicate(timeout=120)
+            except (subprocess.TimeoutExpired, BrokenPipeError, OSError) as ex:
+                try:
+                    p.kill()
+                    out, err = p.communicate(timeout=10)
+                except Exception:
+                    out, err = '', repr(ex)
+                if isinstance(ex, subprocess.TimeoutExpired):
+                    col.fail_inconclusive('python -m glom timed out (%s)' % name)
+                    continue
+            col.case(('subprocess', name, delay), True)
+            col.count('subprocess_runs')
+            col.count('slow_producer_runs')
+            if p.returncode != 0 or out != want:
+                col.violation('C19/subprocess-output-differs:' + name, 'python -m glom %s with the target written to stdin %.1f s after start, in two pieces: '
+                              'status %r stdout %r stderr %r ; expected %r' % (argv, delay, p.returncode, out, err[-300:], want), None)
     # error status through the real process
     p = subprocess.run([sys.executable, '-m', 'glom', 'a.zz', tt], input='', env=e, cwd=tmpdir, timeout=120,
                        stdout=subprocess.PIPE, stderr=subprocess.PIPE, text=True)
